@@ -113,7 +113,11 @@ pub fn build_request(spec: &Value, invoices: &[Value]) -> HtlcAcceptedRequest {
         entries.push(TlvEntry { typ: num(&e["typ"], 0), value: hex::decode(e["value"].as_str().unwrap_or("")).unwrap() });
     }
     if let Some(iv) = spec["invoice"].as_u64() {
-        let mut meta = vec![TlvEntry { typ: 33001, value: invoice_string(&invoices[iv as usize]).into_bytes() }];
+        let mut meta = vec![];
+        for e in spec["meta_prefix"].as_array().cloned().unwrap_or_default() {
+            meta.push(TlvEntry { typ: num(&e["typ"], 0), value: hex::decode(e["value"].as_str().unwrap_or("")).unwrap() });
+        }
+        meta.push(TlvEntry { typ: 33001, value: invoice_string(&invoices[iv as usize]).into_bytes() });
         if let Some(a) = spec["tlv_amount"].as_str() {
             meta.push(TlvEntry { typ: 33003, value: hex::decode(a).unwrap() });
         }
@@ -392,7 +396,8 @@ impl World {
             "old_part" => {
                 let inv = num(&op["inv"], 1);
                 let id = self.sim.parts.len() as u64;
-                self.sim.parts.push(Part { id, hash: hash_of(inv).to_string(), inv, status: op["status"].as_str().unwrap_or("pending").into(), groupid: 1, partid: id + 1 });
+                self.sim.parts.push(Part { id, hash: hash_of(inv).to_string(), inv, status: op["status"].as_str().unwrap_or("pending").into(),
+                    groupid: num(&op["groupid"], 1), partid: num(&op["partid"], id + 1) });
             }
             "store" => {
                 // initial durable state for invoice `inv`: free | pending | succeeded
